@@ -4,34 +4,61 @@
 
    Model: Model/Classes.v (getAllNormalAnnotateClass with strMap + repeatTypeList, GetBestCreateTypeInfo,
    GetAllArrayType/GetAllTableType/GetAllTableKeyType without visited set).  Spec: Spec/ClassClosure.v. *)
-From Coq Require Import List NArith Bool.
+From Coq Require Import List NArith Bool Permutation.
 From LH Require Import Base.Res Model.Classes Spec.ClassClosure
      Proofs.ClassesTotal Proofs.ClassesClosure Proofs.ClassesElem Proofs.ClassesSpecExec Proofs.ClassesPaths.
 Import ListNotations.
 Local Open Scope N_scope.
 
-(* ------------------------------------------------------------------ full statement (false on the unchanged code) *)
-(* members = closure, for every workspace of distinct definitions, every type, from every file and line *)
+(* ------------------------------------------------------------------ full statement *)
+(* members = closure, for every workspace of distinct definitions, every type, from every file and line.
+   `fx` selects the lookup of getClassTypeInfoList: false = the code before fix 53b8e25 (only the single
+   "best" declaration of the referring file), true = the repaired code (best first, then all the others);
+   the deployed model (model_members = model_members_v c15_split_fixed) is the repaired one. *)
+Definition C15_members_full_for (fx : bool) : Prop :=
+  forall tm t f l, wf_tm tm -> forall x, In x (model_members_v fx tm t f l) <-> members_spec tm t x.
+
 Definition C15_members_full : Prop :=
   forall tm t f l, wf_tm tm -> forall x, In x (model_members tm t f l) <-> members_spec tm t x.
 
-(* ------------------------------------------------------------------ T1: the closure theorem *)
-(* proved part: the same statement under the guard shadow_free (no multiply-declared name is referred to from a
-   file that declares it).  Cycles, diamonds, self-parents, alias-of-alias, alias as parent, undeclared names,
-   classes split across files: all inside the guard. *)
+(* ------------------------------------------------------------------ T1: the closure theorem, FULL (no guard) *)
+(* Cycles, diamonds, self-parents, alias-of-alias, alias as parent, undeclared names, classes split across files
+   and referred to from a file that declares one part: all included. *)
+Theorem C15_members_full_proved : C15_members_full.
+Proof. exact members_full. Qed.
+Print Assumptions C15_members_full_proved.
+
 Theorem C15_members_eq_closure :
-  forall tm t f l, wf_tm tm -> shadow_free tm t f = true ->
+  forall tm t f l, wf_tm tm ->
     forall x, In x (model_members tm t f l) <-> members_spec tm t x.
-Proof. exact members_eq_closure. Qed.
+Proof. exact members_full. Qed.
 Print Assumptions C15_members_eq_closure.
 
-(* without any guard the traversal never invents a member *)
+(* the deployed model is the repaired variant *)
+Theorem C15_deployed_is_repaired : C15_members_full <-> C15_members_full_for true.
+Proof. split; intros H; exact H. Qed.
+Print Assumptions C15_deployed_is_repaired.
+
+(* the code before the fix satisfied the statement only under the guard shadow_free (no multiply-declared name is
+   referred to from a file that declares it): the round-1 theorem, kept for the pre-fix variant *)
+Theorem C15_members_eq_closure_before :
+  forall tm t f l, wf_tm tm -> shadow_free tm t f = true ->
+    forall x, In x (model_members_v false tm t f l) <-> members_spec tm t x.
+Proof. exact members_eq_closure_before. Qed.
+Print Assumptions C15_members_eq_closure_before.
+
+(* without any guard the traversal never invents a member (either variant) *)
 Theorem C15_members_sound :
   forall tm t f l x, In x (model_members tm t f l) -> members_spec tm t x.
 Proof. exact members_sound. Qed.
 Print Assumptions C15_members_sound.
 
-(* every class the traversal returns is reachable / under the guard every reachable class is returned
+Theorem C15_members_sound_before :
+  forall tm t f l x, In x (model_members_v false tm t f l) -> members_spec tm t x.
+Proof. exact (members_v_sound false). Qed.
+Print Assumptions C15_members_sound_before.
+
+(* every class the traversal returns is reachable / every reachable class is returned
    (the statement behind go-to-definition on a member: the first returned class having the field) *)
 Theorem C15_classes_sound :
   forall tm fuel t f l o, class_list fuel tm t f l = Ok o -> forall d, In d o -> reachable_def tm t d.
@@ -40,12 +67,51 @@ Print Assumptions C15_classes_sound.
 
 Theorem C15_classes_complete :
   forall tm, wf_tm tm ->
-    (forall d n, In d tm -> In n (refs_of d) -> ref_ok tm (d_file d) n = true) ->
-    forall fuel t f l o, (forall n, In n (normal_names t) -> ref_ok tm f n = true) ->
+    forall fuel t f l o,
       class_list fuel tm t f l = Ok o ->
       forall d, reachable_def tm t d -> is_class d -> In d o.
 Proof. exact class_list_complete. Qed.
 Print Assumptions C15_classes_complete.
+
+Theorem C15_classes_complete_before :
+  forall tm, wf_tm tm ->
+    (forall d n, In d tm -> In n (refs_of d) -> ref_ok tm (d_file d) n = true) ->
+    forall fuel t f l o, (forall n, In n (normal_names t) -> ref_ok tm f n = true) ->
+      class_list_v false fuel tm t f l = Ok o ->
+      forall d, reachable_def tm t d -> is_class d -> In d o.
+Proof. exact class_list_complete_before. Qed.
+Print Assumptions C15_classes_complete_before.
+
+(* consequences of the full statement: the member set depends neither on the place of the annotation (file, line)
+   nor on the order in which the alternatives of a union type are written *)
+Theorem C15_members_place_free :
+  forall tm t f l f' l', wf_tm tm ->
+    forall x, In x (model_members tm t f l) <-> In x (model_members tm t f' l').
+Proof. exact members_place_free. Qed.
+Print Assumptions C15_members_place_free.
+
+Theorem C15_union_order_free :
+  forall tm ts ts' f l, wf_tm tm -> Permutation ts ts' ->
+    forall x, In x (model_members tm (TMulti ts) f l) <-> In x (model_members tm (TMulti ts') f l).
+Proof. exact union_order_free. Qed.
+Print Assumptions C15_union_order_free.
+
+(* the two observables of the property's text, whole, for the deployed model:
+   member completion after `v.` offers exactly the closure ... *)
+Theorem C15_complete_full :
+  forall tm t f l, wf_tm tm ->
+    exists o, complete_at tm (t, f, l) [] = Ok o /\ forall x, In x o <-> members_spec tm t x.
+Proof. exact complete_full. Qed.
+Print Assumptions C15_complete_full.
+
+(* ... and go-to-definition on `v.k` lands on a ---@field k line of a class declaration of the closure whenever
+   the closure has a member k, and finds no field only when it has none *)
+Theorem C15_define_full :
+  forall tm t f l k, wf_tm tm -> c15_fixed_variant = true ->
+    (exists loc, define_at tm (t, f, l) [] k = Ok (Some loc) /\ define_spec tm t k loc) \/
+    (define_at tm (t, f, l) [] k = Ok None /\ forall loc, ~ define_spec tm t k loc).
+Proof. exact define_full. Qed.
+Print Assumptions C15_define_full.
 
 (* ------------------------------------------------------------------ termination (also cited by C01) *)
 (* = C01_class_closure_terminates: no hypothesis on the workspace at all *)
@@ -54,53 +120,77 @@ Theorem C15_terminates :
 Proof. exact class_list_terminates. Qed.
 Print Assumptions C15_terminates.
 
-(* ------------------------------------------------------------------ refutations of the full statement *)
+Theorem C15_terminates_before :
+  forall tm t f l, exists o, class_list_v false (fuel_of tm) tm t f l = Ok o.
+Proof. exact (fun tm => class_list_v_terminates tm false). Qed.
+Print Assumptions C15_terminates_before.
+
+(* ------------------------------------------------------------------ the repaired defect: split class seen from a declaring file *)
 (* class T10 declared in file 0 (field 40) and in file 1 (field 41); a variable of type T10 declared in file 0
-   does not get field 41: GetBestCreateTypeInfo returns the single "best" declaration of the own file *)
+   did not get field 41: GetBestCreateTypeInfo's single "best" declaration of the own file was taken alone.
+   Finding C15-split-class-shadowed, fix 53b8e25. *)
 Definition shadow_tm : tmap :=
   [ mkDef 0 10 0 3 (DClass [] [mkField 40 3 (TMulti [TName 3])]);
     mkDef 1 10 1 7 (DClass [] [mkField 41 7 (TMulti [TName 3])]) ].
 
-Theorem C15_shadow_refuted :
+Theorem C15_shadow_repaired :
   wf_tm shadow_tm /\ shadow_free shadow_tm (TMulti [TName 10]) 0 = false /\
   members_spec shadow_tm (TMulti [TName 10]) 41 /\
-  ~ In 41 (model_members shadow_tm (TMulti [TName 10]) 0 5).
+  ~ In 41 (model_members_v false shadow_tm (TMulti [TName 10]) 0 5) /\      (* before the fix *)
+  In 41 (model_members shadow_tm (TMulti [TName 10]) 0 5).                   (* deployed *)
 Proof.
   split; [repeat constructor; simpl; intuition discriminate|].
-  split; [vm_compute; reflexivity|]. split.
+  split; [vm_compute; reflexivity|]. split; [|split].
   - exists (mkDef 1 10 1 7 (DClass [] [mkField 41 7 (TMulti [TName 3])])). split.
     + exists 10, 10. split; [left; reflexivity|]. split; [apply Relation_Operators.rt_refl|].
       vm_compute. right. left. reflexivity.
     + left. reflexivity.
   - vm_compute. intuition discriminate.
+  - vm_compute. tauto.
 Qed.
-Print Assumptions C15_shadow_refuted.
+Print Assumptions C15_shadow_repaired.
 
-Theorem C15_not_members_full : ~ C15_members_full.
+(* regression on the old witness: both halves, the declaration of the own file first *)
+Example C15_shadow_regression :
+  model_members shadow_tm (TMulti [TName 10]) 0 5 = [40; 41] /\
+  model_members shadow_tm (TMulti [TName 10]) 1 9 = [41; 40] /\
+  model_members shadow_tm (TMulti [TName 10]) 2 1 = [40; 41].
+Proof. vm_compute. repeat split. Qed.
+
+(* the full statement was false for the code before the fix *)
+Theorem C15_members_full_refuted_before : ~ C15_members_full_for false.
 Proof.
-  intros H. destruct C15_shadow_refuted as [Hwf [_ [Hs Hn]]].
+  intros H. destruct C15_shadow_repaired as [Hwf [_ [Hs [Hn _]]]].
   apply Hn. apply (H shadow_tm (TMulti [TName 10]) 0 5 Hwf 41). exact Hs.
 Qed.
-Print Assumptions C15_not_members_full.
+Print Assumptions C15_members_full_refuted_before.
 
-(* the same mechanism together with the name-visited map makes a union type order dependent:
+(* the same mechanism together with the name-visited map made a union type order dependent:
    alias T11 = T10 lives in file 0 beside one half of class T10, alias T12 = T10 in file 2;
-   `T11 | T12` offers field 40 only, `T12 | T11` offers 40 and 41 *)
+   `T11 | T12` offered field 40 only, `T12 | T11` offered 40 and 41.  Repaired by the same fix
+   (in general: C15_union_order_free). *)
 Definition union_tm : tmap :=
   [ mkDef 0 10 0 3 (DClass [] [mkField 40 3 (TMulti [TName 3])]);
     mkDef 1 11 0 5 (DAlias (TMulti [TName 10]));
     mkDef 2 10 1 9 (DClass [] [mkField 41 9 (TMulti [TName 3])]);
     mkDef 3 12 2 12 (DAlias (TMulti [TName 10])) ].
 
-Theorem C15_union_order_refuted :
+Theorem C15_union_order_repaired :
   wf_tm union_tm /\
-  In 41 (model_members union_tm (TMulti [TName 12; TName 11]) 2 14) /\
-  ~ In 41 (model_members union_tm (TMulti [TName 11; TName 12]) 2 14).
+  (In 41 (model_members_v false union_tm (TMulti [TName 12; TName 11]) 2 14) /\      (* before the fix *)
+   ~ In 41 (model_members_v false union_tm (TMulti [TName 11; TName 12]) 2 14)) /\
+  (In 41 (model_members union_tm (TMulti [TName 12; TName 11]) 2 14) /\              (* deployed *)
+   In 41 (model_members union_tm (TMulti [TName 11; TName 12]) 2 14)).
 Proof.
   split; [repeat constructor; simpl; intuition discriminate|].
-  split; vm_compute; intuition discriminate.
+  split; split; vm_compute; intuition discriminate.
 Qed.
-Print Assumptions C15_union_order_refuted.
+Print Assumptions C15_union_order_repaired.
+
+Example C15_union_regression :
+  model_members union_tm (TMulti [TName 11; TName 12]) 2 14 = [40; 41] /\
+  model_members union_tm (TMulti [TName 12; TName 11]) 2 14 = [40; 41].
+Proof. vm_compute. split; reflexivity. Qed.
 
 (* ------------------------------------------------------------------ element / value / key type through aliases *)
 (* = C01_alias_cycle_refuted: { T10 -> alias T11 ; T11 -> alias T10 }: none of GetAllArrayType, GetAllTableType,
@@ -169,7 +259,7 @@ Theorem C15_index_step_closure :
     cyclic_alias leaf_arr tm t f = false -> cyclic_alias leaf_val tm t f = false ->
     exists r o, index_rel tm t f r /\ complete_at tm (t, f, l) [None] = Ok o /\
       match r with
-      | Some e => shadow_free tm e f = true -> forall x, In x o <-> members_spec tm e x
+      | Some e => forall x, In x o <-> members_spec tm e x
       | None => o = []
       end.
 Proof. exact index_step_closure. Qed.
@@ -209,6 +299,71 @@ Theorem C15_index_step_members_fixed :
 Proof. exact index_step_members_fixed. Qed.
 Print Assumptions C15_index_step_members_fixed.
 
+(* one indexing step of the deployed model, complete: after `v[1].` / `v.k.` (k no member) exactly the members of
+   the element type the specification computes; no cyclicity guard and no shadowing guard any more *)
+Theorem C15_index_step_closure_fixed :
+  forall tm t f l, wf_tm tm -> c15_fixed_variant = true ->
+    exists o, complete_at tm (t, f, l) [None] = Ok o /\
+      match index_exec tm t f with
+      | Some e => forall x, In x o <-> members_spec tm e x
+      | None => o = []
+      end.
+Proof. exact index_step_closure_fixed. Qed.
+Print Assumptions C15_index_step_closure_fixed.
+
+(* ------------------------------------------------------------------ member prefixes of ANY length (deployed model) *)
+(* following `v<path>` (steps `.k` and `[i]`) never fails and follows the specification path_rel (Spec/ClassClosure.v) *)
+Theorem C15_follow_path :
+  forall tm, wf_tm tm -> c15_fixed_variant = true ->
+    forall path s, exists r, follow tm s path = Ok r /\ path_rel tm s path r.
+Proof. exact follow_path. Qed.
+Print Assumptions C15_follow_path.
+
+(* completion after `v<path>.`: exactly the member closure of the type the prefix denotes, nothing if it denotes none *)
+Theorem C15_complete_path_full :
+  forall tm s path, wf_tm tm -> c15_fixed_variant = true ->
+    exists r o, path_rel tm s path r /\ complete_at tm s path = Ok o /\
+      match r with
+      | Some (t', _, _) => forall x, In x o <-> members_spec tm t' x
+      | None => o = []
+      end.
+Proof. exact complete_path_full. Qed.
+Print Assumptions C15_complete_path_full.
+
+(* go-to-definition on `v<path>.k` *)
+Theorem C15_define_path_full :
+  forall tm s path k, wf_tm tm -> c15_fixed_variant = true ->
+    exists r, path_rel tm s path r /\
+      match r with
+      | Some (t', _, _) =>
+          (exists loc, define_at tm s path k = Ok (Some loc) /\ define_spec tm t' k loc) \/
+          (define_at tm s path k = Ok None /\ forall loc, ~ define_spec tm t' k loc)
+      | None => define_at tm s path k = Ok None
+      end.
+Proof. exact define_path_full. Qed.
+Print Assumptions C15_define_path_full.
+
+(* the premises about the variant flags are facts of the deployed model *)
+Theorem C15_deployed_variants : c15_fixed_variant = true /\ c15_split_fixed = true.
+Proof. split; reflexivity. Qed.
+Print Assumptions C15_deployed_variants.
+
+(* a prefix of three steps through a split class: T10 (file 0: field 40 : T11[]; file 1: field 41), T11 with a
+   table-valued field 42 : table<number, T10>, asked from file 0 where one half of T10 lives:
+   v.f40[1].f42.zz.  offers both halves of T10 *)
+Definition path_tm : tmap :=
+  [ mkDef 0 10 0 3 (DClass [] [mkField 40 3 (TMulti [TArr (TName 11)])]);
+    mkDef 1 11 0 6 (DClass [] [mkField 42 6 (TMulti [TTable (TMulti [TName 3]) (TMulti [TName 10])])]);
+    mkDef 2 10 1 9 (DClass [] [mkField 41 9 (TMulti [TName 3])]) ].
+
+Example C15_path_example :
+  wf_tm path_tm /\
+  complete_at path_tm (TMulti [TName 10], 0, 12) [Some 40; None; Some 42; Some 77] = Ok [40; 41] /\
+  define_at path_tm (TMulti [TName 10], 0, 12) [Some 40; None; Some 42; Some 77] 41 = Ok (Some (1, 9)).
+Proof.
+  split; [repeat constructor; simpl; intuition discriminate|]. split; vm_compute; reflexivity.
+Qed.
+
 (* ------------------------------------------------------------------ the executable specification is the specification *)
 Theorem C15_spec_exec_index :
   forall tm t f r, wf_tm tm -> index_rel tm t f r -> index_exec tm t f = r.
@@ -225,6 +380,11 @@ Theorem C15_spec_exec_define :
 Proof. exact define_exec_correct. Qed.
 Print Assumptions C15_spec_exec_define.
 
+Theorem C15_spec_exec_member_step :
+  forall tm t k L, member_step_exec tm t k = Some L -> forall s, In s L <-> member_step_spec tm t k s.
+Proof. exact member_step_exec_correct. Qed.
+Print Assumptions C15_spec_exec_member_step.
+
 Theorem C15_spec_exec_total :
   forall tm t, exists L, members_exec tm t = Some L.
 Proof. exact members_exec_total. Qed.
@@ -232,7 +392,7 @@ Print Assumptions C15_spec_exec_total.
 
 (* ------------------------------------------------------------------ non-vacuity of the guards *)
 (* diamond with a 2-cycle, an alias as parent and class T13 split across files 1 and 2, asked from file 3:
-   satisfies wf_tm and shadow_free *)
+   satisfies wf_tm and (for the pre-fix theorems) shadow_free; both variants answer the closure *)
 Definition guard_tm : tmap :=
   [ mkDef 0 10 0 2 (DClass [11; 12] [mkField 40 2 (TMulti [TName 3])]);
     mkDef 1 11 0 5 (DClass [13; 10] [mkField 41 5 (TMulti [TName 3])]);
@@ -242,9 +402,10 @@ Definition guard_tm : tmap :=
 
 Example C15_guard_inhabited :
   wf_tm guard_tm /\ shadow_free guard_tm (TMulti [TName 10]) 3 = true /\
-  model_members guard_tm (TMulti [TName 10]) 3 20 = [40; 41; 42; 43].
+  model_members guard_tm (TMulti [TName 10]) 3 20 = [40; 41; 42; 43] /\
+  model_members_v false guard_tm (TMulti [TName 10]) 3 20 = [40; 41; 42; 43].
 Proof.
-  split; [repeat constructor; simpl; intuition discriminate|]. split; vm_compute; reflexivity.
+  split; [repeat constructor; simpl; intuition discriminate|]. repeat split; vm_compute; reflexivity.
 Qed.
 
 (* alias chain T12 -> (T11 | T10[]) -> ... is stratified: rank = the name itself *)
